@@ -364,6 +364,8 @@ ANCHOR_GRADERS = {
     'Sa': {'$g': 'StringGrader', 'kw': {'accept_any': True, 'min_length': 5}},
     'L': {'$g': 'ListGrader', 'kw': {'answers': ['zqx', 'zqy'],
                                      'subgraders': {'$g': 'FormulaGrader', 'kw': {'variables': ['zqx', 'zqy']}}}},
+    'Lsib': {'$g': 'ListGrader', 'kw': {'answers': ['sibling_2+sibling_3', 'zqx', 'zqx+1'], 'ordered': True,
+                                        'subgraders': {'$g': 'FormulaGrader', 'kw': {'variables': ['zqx']}}}},
     'Sum': {'$g': 'SumGrader', 'kw': {'answers': {'lower': '1', 'upper': '5', 'summand': 'n',
                                                   'summation_variable': 'n'}}},
 }
@@ -384,6 +386,9 @@ ANCHORS = [
     ('Sum', ['1', '5', 'n'], 'ConfigError'), ('Sum', ['i', '5', 'n', 'n'], 'SummationError'),
     ('Sum', ['infty', 'infty', 'n', 'n'], 'SummationError'), ('N', 'zqx', 'UndefinedVariable'),
     ('N', '3+', 'UnableToParse'), ('Fw', 'cos(zqx)+sin(zqx)-cos(zqx)', 'InvalidInput'), ('Fw', 'sin(zqx)+0', 'InvalidInput'),
+    # a sibling box whose formula can never be resolved while another one can: must end with the dependency error
+    # (a seeded change made the resolution loop spin forever once any dependent had resolved)
+    ('Lsib', ['2*zqx', 'zqx', 'zqq+1'], 'ConfigError'), ('Lsib', ['2*zqx', 'sibling_3', 'sibling_2'], 'ConfigError'),
     # array operators with anticipated misuse (added after a seeded change turned matrix^complex into a TypeError,
     # i.e. the generic error, which the debug-twin differential cannot tell from an unanticipated failure)
     ('M', '[[1,2],[3,4]]^i', 'MathArrayError'), ('M', '[[1,2],[3,4]]^(2*j)', 'MathArrayError'),
@@ -566,8 +571,52 @@ def judge_nontext(spec, rec):
     return {'raised': 'ConfigError'}
 
 
+# non-text input while the answer is inferred from the edX `expect` argument (item graders without configured
+# answers): the refusal must still be a ConfigError (a seeded change let the debug-log code, which runs before input
+# validation on this path, raise TypeError)
+INFER = {
+    'String': (lambda: __import__('mitxgraders').StringGrader(), 'cat'),
+    'Formula': (lambda: __import__('mitxgraders').FormulaGrader(variables=['x']), 'x+1'),
+    'Numerical': (lambda: __import__('mitxgraders').NumericalGrader(), '2'),
+    'Matrix': (lambda: __import__('mitxgraders').MatrixGrader(), '[1,2]'),
+    'SingleList': (lambda: __import__('mitxgraders').SingleListGrader(subgrader=__import__('mitxgraders').StringGrader()), 'a,b'),
+    'Interval': (lambda: __import__('mitxgraders').IntervalGrader(), '[1,2)'),
+}
+INFER_OBJS = [{'obj': 'None'}, {'obj': 'int', 'v': 5}, {'obj': 'float', 'v': 3.5}, {'obj': 'bool', 'v': True},
+              {'obj': 'bytes', 'v': 'ab'}, {'obj': 'complex', 'v': [1, 2]}, {'obj': 'list', 'v': ['2', {'obj': 'None'}]},
+              {'obj': 'list', 'v': ['a', 'b']}, {'obj': 'list-of-int'}, {'obj': 'tuple', 'v': ['a']},
+              {'obj': 'dict', 'v': [['a', 'b']]}, {'obj': 'set', 'v': ['a']}]
+
+
+def items_infer(tier):
+    for kind in sorted(INFER):
+        for n, o in enumerate(INFER_OBJS):
+            for dbg in (False,):
+                yield {'kind': kind, 'obj': o, 'n': n}
+
+
+def judge_infer(spec, rec):
+    make, expect = INFER[spec['kind']]
+    g = make()
+    inp = decode_obj(spec['obj'])
+    set_seed(0)
+    with watchdog(30):
+        status, val = call(g, expect, inp)
+    rec.calls()
+    if status == 'ok':
+        raise Violation('nontext/graded/inferred-expect', '%s graded %r instead of refusing it: %r' % (
+            spec['kind'], inp, val))
+    if not isinstance(val, ConfigError):
+        raise Violation('nontext/not-a-configuration-error/inferred-expect', '%sGrader()(%r, %r) raised %s: %s' % (
+            spec['kind'], expect, inp, type(val).__name__, str(val)[:200]))
+    rec.cls('nontext/inferred-expect')
+    rec.nontrivial()
+    return {'raised': 'ConfigError'}
+
+
 PARTS = [
     Part('anchors', 'enum', judge_anchor, items=items_anchors, exhaustive=True, shards=2),
+    Part('nontext-infer', 'enum', judge_infer, items=items_infer, exhaustive=True, shards=2),
     Part('hostile', 'hyp', judge_hostile, strategy=lambda tier: strat_hostile(tier),
          budget={'quick': 13000, 'thorough': 300000}),
     Part('families', 'hyp', judge_family, strategy=lambda tier: strat_families(tier),
